@@ -575,6 +575,11 @@ class ThreadsBehindProcessFace(ProcessPoolExecutor):
         self._inner.shutdown(wait=wait, cancel_futures=cancel_futures)
 
 
+def picked(outcome):
+    """a non-identity `pickable=`: what crosses the process boundary is a summary of the outcome (module level: picklable)"""
+    return ('picked', outcome)
+
+
 def check_results(pays, out, err):
     fails = []
     got = [canon(r) for r in out]
@@ -687,6 +692,20 @@ def public_api_item(tier, seed):
         for cls_, detail in check_results(pays, out, err):
             fails.append(dict(cls=cls_, detail=detail, witness=dict(api='parproc', payloads=n, raising=[i for i in range(n) if mask >> i & 1],
                                                                     parallel=parallel, max_workers=k)))
+        # the same call with a `pickable=` that is not the identity: every mode (shortcut, sequential, parallel) hands out the
+        # transformed outcome, so the modes keep yielding the same multiset of results
+        if not k:
+            out2, err2 = [], None
+            try:
+                out2 = list(parproc(work, pays, parallel=parallel, max_workers=k, pickable=picked))
+            except Exception as e:
+                err2 = f'{type(e).__name__}: {e}'
+            cases += 1
+            got2 = Counter((canon(r)[0], r.outcome) for r in out2)
+            want2 = Counter((expected(p)[0], picked(expected(p)[1])) for p in pays)
+            if err2 or got2 != want2:
+                fails.append(dict(cls='pickable-not-applied-to-every-outcome', detail=err2 or f'expected outcomes {sorted(want2, key=repr)} got {sorted(got2, key=repr)}',
+                                  witness=dict(api='parproc', payloads=n, raising=[i for i in range(n) if mask >> i & 1], parallel=parallel, pickable='lambda o: ("picked", o)')))
         samples.append(dict(payloads=n, parallel=parallel, max_workers=k, yielded=[canon(r)[0] for r in out]))
     return bitem(PROP, 'public-parproc', function='tatsu/parproc/parproc.py:parproc (public API)',
                  domain='after a run interrupted by KeyboardInterrupt in the same process: 0 and 1 payload shortcuts, sequential mode on 3..4 payloads with raising subsets'
